@@ -205,3 +205,41 @@ package lossy
 //@   modifies *
 //@   loop 0: invariant 1 <= i && out[0] == in[0] && (i >= 2 ==> out[i-1] == in[i-1] - in[i-2])
 //@   loop 2: invariant 1 <= x && base(dst) == base(out) && base(src) == base(in) && base(prev) == base(in) && dst[0] == src[0] - prev[0] && (x >= 2 ==> dst[x-1] == src[x-1] - gradPred(src[x-2], prev[x-1], prev[x-2]))
+//
+// ---- C04 / C06: dequantisation factors (RFC 6386 sections 9.6 and 14.1) ----
+//
+// The code's lookup tables are the RFC's, and the table the encoder uses for
+// the Y2 AC step is the decoder's fixed-point formula applied to ac_qlookup,
+// which in turn is the RFC's "* 155 / 100, at least 8".
+//@ lemma quantTablesAreRFC(i int)
+//@   property C04 C06 C13
+//@   requires 0 <= i && i < 128
+//@   ensures int(KDcTable[i]) == specDcQ[i] && int(KAcTable[i]) == specAcQ[i]
+//@   ensures specY2AC(i, 0) == specY2ACrfc(i) && specUVDC(i, 0) == specUVDCrfc(i)
+//@   ensures int(KAcTable2[i]) == specY2AC(i, 0)
+//
+// The decoder's per-segment matrices are the RFC's factors of the segment's
+// quantiser index (segment value, plus the frame index unless absolute; the
+// frame index for every segment when segmentation is off).
+//@ pure func segQ(segHdr *SegmentHeader, baseQ0 int, i int) int = segHdr.UseSegment ? (segHdr.AbsoluteDelta ? int(segHdr.Quantizer[i]) : int(segHdr.Quantizer[i]) + baseQ0) : baseQ0
+//
+//@ func ParseQuant
+//@   property C04 C06
+//@   nosafety
+//@   requires segHdr != nil && len(dqm) >= 4
+//@   modifies *
+//@   ensures forall i int in 0..4 :: dqm[i].Y1Mat[0] == specY1DC(segQ(segHdr, baseQ0, i), dqy1DC) && dqm[i].Y1Mat[1] == specY1AC(segQ(segHdr, baseQ0, i))
+//@   ensures forall i int in 0..4 :: dqm[i].Y2Mat[0] == specY2DC(segQ(segHdr, baseQ0, i), dqy2DC) && dqm[i].Y2Mat[1] == specY2AC(segQ(segHdr, baseQ0, i), dqy2AC)
+//@   ensures forall i int in 0..4 :: dqm[i].UVMat[0] == specUVDC(segQ(segHdr, baseQ0, i), dquvDC) && dqm[i].UVMat[1] == specUVAC(segQ(segHdr, baseQ0, i), dquvAC)
+//
+// The encoder quantises with exactly these factors (so that what it
+// reconstructs is what the decoder dequantises), for the segment's index q
+// and the encoder's five deltas.
+//@ func setupSegment
+//@   property C06
+//@   nosafety
+//@   requires enc != nil && 0 <= idx && idx < 4
+//@   modifies *
+//@   ensures enc.dqm[idx].Y1.DCQuant == specY1DC(q, enc.dqY1DC) && enc.dqm[idx].Y1.Quant == specY1AC(q)
+//@   ensures enc.dqm[idx].Y2.DCQuant == specY2DC(q, enc.dqY2DC) && enc.dqm[idx].Y2.Quant == specY2AC(q, enc.dqY2AC)
+//@   ensures enc.dqm[idx].UV.DCQuant == specUVDC(q, enc.dqUVDC) && enc.dqm[idx].UV.Quant == specUVAC(q, enc.dqUVAC)
